@@ -81,6 +81,10 @@ pub fn run(case: &Value) -> Value {
             }
             let (x, y) = (regs[i].clone(), regs[j].clone());
             let res = guarded(|| {
+                // the same observers on copies rebuilt through `+` (which keeps no zero entry):
+                // zero entries must be immaterial, whatever the sign of the other amounts
+                let xn = CanonicalAssets::empty() + x.clone();
+                let yn = CanonicalAssets::empty() + y.clone();
                 json!({
                     "eq": x == y,
                     "is_empty": x.is_empty(),
@@ -88,6 +92,14 @@ pub fn run(case: &Value) -> Value {
                     "is_only_naked": x.is_only_naked(),
                     "contains_total": x.contains_total(&y),
                     "contains_some": x.contains_some(&y),
+                    "norm": {
+                        "eq": xn == yn,
+                        "is_empty": xn.is_empty(),
+                        "is_empty_or_negative": xn.is_empty_or_negative(),
+                        "is_only_naked": xn.is_only_naked(),
+                        "contains_total": xn.contains_total(&yn),
+                        "contains_some": xn.contains_some(&yn),
+                    },
                 })
             });
             let res = res.unwrap_or_else(|p| json!({"panic": p}));
